@@ -1,6 +1,7 @@
 package main
 
 import (
+	"encoding/base64"
 	"encoding/binary"
 	"fmt"
 	"github.com/sergeymakinen/go-crypt/des/descrypt"
@@ -433,6 +434,35 @@ func suiteClassify(c *Ctx) {
 			hashes = append(hashes, strings.Replace(h, "$v=19", "", 1)) // absent version (verifies only by luck: v=16 digest differs)
 		case "bcrypt":
 			hashes = append(hashes, "$2a$"+h[4:], "$2$"+h[4:])
+		}
+		// an explicitly written zero cost/version is out of range (C06): it must not verify, and it must not
+		// be reported as a mere mismatch when the digest is the right one for the defaulted value
+		switch api.name {
+		case "sha256", "sha512":
+			implicit := hashes[len(hashes)-1]
+			id := implicit[:3]
+			t := id + "rounds=0$" + implicit[3:]
+			c.Direct++
+			if r := goCheck(api, t, pw, 0); r == "nil" || r == "mismatch" {
+				c.Fail("out-of-range-cost-accepted", fmt.Sprintf("%s.Check(%q, correct password) = %s: rounds=0 is below MinRounds, yet it is read as \"absent\" (default 5000)", api.name, t, r),
+					map[string]string{"suite": "classify", "scheme": api.name, "hash": hx([]byte(t)), "password": hx([]byte(pw)), "class": "explicit-zero-rounds"})
+			}
+		case "argon2":
+			saltRaw := []byte("saltsalt")
+			k, kerr := argon2.Key([]byte(pw), saltRaw, 8, 1, 1, &argon2.CompatibilityOptions{Prefix: argon2.Prefix2id, Version: argon2.Version10})
+			if kerr == nil {
+				body := "m=8,t=1,p=1$" + base64.RawStdEncoding.EncodeToString(saltRaw) + "$" + base64.RawStdEncoding.EncodeToString(k)
+				c.Direct += 2
+				if r := goCheck(api, "$argon2id$"+body, pw, 0); r != "nil" {
+					c.Fail("wellformed-rejected", "argon2.Check of a version-less (v1.0) hash with the correct password = "+r,
+						map[string]string{"suite": "classify", "scheme": "argon2", "hash": hx([]byte("$argon2id$" + body)), "password": hx([]byte(pw))})
+				}
+				t := "$argon2id$v=0$" + body
+				if r := goCheck(api, t, pw, 0); r == "nil" || r == "mismatch" {
+					c.Fail("out-of-range-cost-accepted", fmt.Sprintf("argon2.Check(%q, correct password) = %s: version 0 is unsupported, yet v=0 is read as \"absent\" (version 1.0)", t, r),
+						map[string]string{"suite": "classify", "scheme": "argon2", "hash": hx([]byte(t)), "password": hx([]byte(pw)), "class": "explicit-zero-version"})
+				}
+			}
 		}
 		maxOps := 1500
 		if api.name == "sunmd5" || api.name == "bcrypt" {
